@@ -35,7 +35,7 @@ func main() {
 		}
 		return
 	case "child":
-		childMain(fs.Args())
+		childMain(os.Args[2:])
 		return
 	case "list":
 		var ks []string
